@@ -92,7 +92,11 @@ func vhC05() {
 
 	// the client
 	req := &http.Request{Method: "GET", Header: http.Header{}}
-	c := &Connection{request: req, callbacks: map[string]map[int]EventCallback{}, callbacksAll: map[int]EventCallback{}}
+	c := vhNewConn(nil, req)
+	req = c.request // NewConnection clones the request: the clone is what resetRequest updates
+	if l := verifParam("SMALLBUF", 0); l > 0 {
+		c.Buffer(nil, l) // the scanner then compacts/refills its buffer within these short streams
+	}
 	var got []Event
 	c.SubscribeToAll(func(e Event) { got = append(got, e) })
 	srv := &Server{}
